@@ -834,7 +834,12 @@ def d9_details(chk, repo, v, r):
             chk.ob(f"{q}::{name}::selected-by-its-extensions", oks, "C09.D9",
                    f"{name} runs under {d.show(pt)[:160]}; it must run for the extensions of its own format (a membership or "
                    "equality test of the suffix) and for no others", d.f, st)
-    # ---- side-car writer opens for writing and knows how to encode regions
+    d9_sidecar(chk, repo)
+
+
+def d9_sidecar(chk, repo):
+    """side-car writer opens for writing and knows how to encode regions (shared with C14)"""
+    chk.rule("C09.D9", "the side-car file is opened for writing and regions are encoded by the Region JSON encoder")
     m = FV(repo, "io._MeshIO.save_subregions")
     opens = [(call, st) for call, st in m.calls() if isinstance(call.func, ast.Attribute) and call.func.attr == "open"]
     okm = False
